@@ -115,6 +115,7 @@ pub struct SysRun {
 }
 
 struct Shared<O: Observer> {
+    rows_to_stderr: bool,
     obs: O,
     guest: Guest,
     events: Vec<Event>,
@@ -224,6 +225,8 @@ pub fn run_sys<O: Observer + 'static>(
         failure: None,
         step_cap: cfg.step_cap,
         jump: jump.clone(),
+        // debugging aid for replays only (VERIF_ROWS=1): one line per loop-top row on stderr; nothing depends on it
+        rows_to_stderr: std::env::var_os("VERIF_ROWS").is_some(),
     }));
     let to_cpu = sim.to_cpu.clone();
     // the receiving end stays in `sim`; the callback needs it too: move it into the shared cell
@@ -242,6 +245,9 @@ pub fn run_sys<O: Observer + 'static>(
         let new_msgs: Vec<String> = rx.borrow().as_ref().map(|r| r.try_iter().collect()).unwrap_or_default();
         let row = Row { iter, pc: cpu.verif_pc(), sp: cpu.er[7], ccr: cpu.verif_ccr(), state: cpu.verif_state_sum() as u64, npend: cpu.verif_pending_len() as u32 };
         let prev = s.last;
+        if s.rows_to_stderr {
+            eprintln!("row {:?} pending {:?} word {:02x}{:02x}", row, cpu.verif_pending(), cpu.bus.read(row.pc & 0xff_fffe).unwrap_or(0), cpu.bus.read((row.pc & 0xff_fffe) + 1).unwrap_or(0));
+        }
         trace_fold(((row.pc as u64) << 32) | row.sp as u64);
         trace_fold(((row.ccr as u64) << 56) ^ row.state ^ ((row.npend as u64) << 40));
         for m in &new_msgs {
